@@ -110,3 +110,23 @@ Definition check_C17 (c : c17_case) : bool :=
       | OK f => import_ok exact (to_xarray f None) obs
       end
   end.
+
+(* ---------- what a passing exact-regime case certifies (soundness statements live in
+   proofs/C17_check.v) ---------- *)
+Definition field_eqv (f g : field) : Prop :=
+  let rf := reg (fmesh f) in let rg := reg (fmesh g) in
+  Forall2 Qeq (pmin rf) (pmin rg) /\ Forall2 Qeq (pmax rf) (pmax rg) /\
+  dims rf = dims rg /\ units rf = units rg /\ tf rf == tf rg /\
+  n (fmesh f) = n (fmesh g) /\ fnvdim f = fnvdim g /\ fvdims f = fvdims g /\
+  fdtype f = fdtype g /\ funit f = funit g /\ Forall2 Qeq (fdata f) (fdata g).
+
+Definition oql_eqv (a b : option (list Q)) : Prop :=
+  match a, b with Some x, Some y => Forall2 Qeq x y | None, None => True | _, _ => False end.
+
+Definition da_eqv (a b : dataarray) : Prop :=
+  xdims a = xdims b /\ xshape a = xshape b /\ Forall2 (Forall2 Qeq) (xcoords a) (xcoords b) /\
+  xcunits a = xcunits b /\ xvdims a = xvdims b /\ Forall2 Qeq (xdata a) (xdata b) /\
+  xdtype a = xdtype b /\ a_units a = a_units b /\
+  oql_eqv (a_cell a) (a_cell b) /\ oql_eqv (a_pmin a) (a_pmin b) /\ oql_eqv (a_pmax a) (a_pmax b) /\
+  a_nvdim a = a_nvdim b /\
+  match a_tf a, a_tf b with Some x, Some y => x == y | None, None => True | _, _ => False end.
